@@ -233,10 +233,16 @@ def _judge_twin(engine, spec, free, faulty, site, where, res, tagsfx):
         i += 1
     gap = len(fa) - len(xa)
     ok = gap >= (1 if kind == "action" else 0) and fa[i + gap:] == xa[i:] and all(x in allowed for x in fa[i:i + gap])
-    if kind == "action" and ok and (gap == 0 or fa[i] != name):
-        # the block must start at the faulted action itself; equal prefixes can hide an earlier
-        # occurrence of the same marker, so only require that the block contains it first
-        ok = gap > 0 and name in fa[i:i + gap][:1]
+    if kind == "action":
+        # the removed block must start at the faulted action itself. The first index where the two
+        # logs differ is only the *latest* possible start (a repeated marker makes the alignment
+        # ambiguous: [t0 x5 t0 x4] minus [t0 x5] and minus [x5 t0] both give [t0 x4]), so try
+        # every start that yields the faulty log
+        ok = False
+        for j in range(max(0, i - gap), i + 1):
+            if gap > 0 and j < len(fa) and fa[j] == name and fa[:j] + fa[j + gap:] == xa and all(x in allowed for x in fa[j:j + gap]):
+                ok = True
+                break
     if not ok:
         res.violate(f"{engine}|action-fault-not-contained|{lid.split(':')[0].split('/')[0]}|{tagsfx}",
                     {"engine": engine, "site": site, "list": lid, "free_acts": fa[max(0, i - 3): i + 8], "faulty_acts": xa[max(0, i - 3): i + 8], "gap": gap})
